@@ -1,4 +1,5 @@
 import PharmpyModel.C19.Model
+import PharmpyModel.C19.Spec
 /-
   Helper lemmas for C19: the stable descending insertion sort is a sorted
   permutation; the ranking loop computes competition ranks on a sorted list;
@@ -287,5 +288,201 @@ theorem rankedRows_eq (cfg : Cfg) (all : List Cand) :
   rw [above_keys]
   unfold compRank
   rw [hp.countP_eq]
+
+/-! ### nanargmin -/
+
+theorem nanargminV_spec (xs : List Val) :
+    (nanargminV xs = none → ∀ x ∈ xs, x = .nan) ∧
+    (∀ i v, nanargminV xs = some (i, v) →
+      xs[i]? = some (.num v) ∧ (∀ (j : Nat) (w : Rat), xs[j]? = some (.num w) → v ≤ w) ∧
+      (∀ (j : Nat) (w : Rat), j < i → xs[j]? = some (.num w) → v < w)) := by
+  induction xs with
+  | nil => simp [nanargminV]
+  | cons x xs ih =>
+    obtain ⟨ih1, ih2⟩ := ih
+    cases x with
+    | nan =>
+      simp only [nanargminV]
+      constructor
+      · intro h x hx
+        cases hr : nanargminV xs with
+        | some p => simp [hr] at h
+        | none =>
+          rcases List.mem_cons.mp hx with rfl | hx
+          · rfl
+          · exact ih1 hr x hx
+      · intro i v h
+        cases hr : nanargminV xs with
+        | none => simp [hr] at h
+        | some p =>
+          obtain ⟨k, b⟩ := p
+          simp [hr] at h
+          obtain ⟨rfl, rfl⟩ := h
+          obtain ⟨h1, h2, h3⟩ := ih2 k b hr
+          refine ⟨by simpa using h1, ?_, ?_⟩
+          · intro j w hj
+            cases j with
+            | zero => simp at hj
+            | succ j => exact h2 j w (by simpa using hj)
+          · intro j w hlt hj
+            cases j with
+            | zero => simp at hj
+            | succ j => exact h3 j w (by omega) (by simpa using hj)
+    | num a =>
+      simp only [nanargminV]
+      constructor
+      · intro h
+        cases hr : nanargminV xs with
+        | none => simp [hr] at h
+        | some p => obtain ⟨k, b⟩ := p; simp [hr] at h; split at h <;> cases h
+      · intro i v h
+        cases hr : nanargminV xs with
+        | none =>
+          simp [hr] at h
+          obtain ⟨rfl, rfl⟩ := h
+          refine ⟨by simp, ?_, ?_⟩
+          · intro j w hj
+            cases j with
+            | zero => simp at hj; subst hj; exact Rat.le_refl
+            | succ j =>
+              have := ih1 hr (.num w) (List.mem_of_getElem? (by simpa using hj))
+              cases this
+          · intro j w hlt; omega
+        | some p =>
+          obtain ⟨k, b⟩ := p
+          obtain ⟨h1, h2, h3⟩ := ih2 k b hr
+          simp [hr] at h
+          by_cases hba : b < a
+          · simp [hba] at h
+            obtain ⟨rfl, rfl⟩ := h
+            refine ⟨by simpa using h1, ?_, ?_⟩
+            · intro j w hj
+              cases j with
+              | zero => simp at hj; subst hj; grind
+              | succ j => exact h2 j w (by simpa using hj)
+            · intro j w hlt hj
+              cases j with
+              | zero => simp at hj; subst hj; exact hba
+              | succ j => exact h3 j w (by omega) (by simpa using hj)
+          · simp [hba] at h
+            obtain ⟨rfl, rfl⟩ := h
+            refine ⟨by simp, ?_, ?_⟩
+            · intro j w hj
+              cases j with
+              | zero => simp at hj; subst hj; exact Rat.le_refl
+              | succ j => have := h2 j w (by simpa using hj); grind
+            · intro j w hlt; omega
+
+/-! ### unionS / categorize -/
+
+theorem mem_unionS (a b : List String) (x : String) : x ∈ unionS a b ↔ x ∈ a ∨ x ∈ b := by
+  unfold unionS
+  induction b generalizing a with
+  | nil => simp
+  | cons y ys ih =>
+    simp only [List.foldl_cons]
+    rw [ih]
+    unfold addNew
+    by_cases hy : a.contains y = true
+    · simp only [hy, if_true]
+      have : y ∈ a := by simpa using hy
+      constructor
+      · rintro (h | h)
+        · exact Or.inl h
+        · exact Or.inr (List.mem_cons_of_mem _ h)
+      · rintro (h | h)
+        · exact Or.inl h
+        · rcases List.mem_cons.mp h with rfl | h
+          · exact Or.inl this
+          · exact Or.inr h
+    · simp only [hy]
+      simp only [Bool.false_eq_true, if_false, List.mem_append, List.mem_cons]
+      grind
+
+theorem nodup_unionS (a b : List String) (h : a.Nodup) : (unionS a b).Nodup := by
+  unfold unionS
+  induction b generalizing a with
+  | nil => simpa
+  | cons y ys ih =>
+    simp only [List.foldl_cons]
+    apply ih
+    unfold addNew
+    by_cases hy : a.contains y = true
+    · simp only [hy, if_true]; exact h
+    · simp only [hy, Bool.false_eq_true, if_false]
+      have hn : y ∉ a := by simpa using hy
+      rw [List.nodup_append]
+      refine ⟨h, by simp, ?_⟩
+      intro p hp q hq hpq
+      simp at hq
+      subst hq; subst hpq
+      exact hn hp
+
+/-- Invariant of the two loops of `_categorize_parameters`, from any start state. -/
+theorem categorize_fold (vs : List Vis) :
+    ∀ (st : List String × List String) (x : String),
+      (x ∈ (vs.foldl catStep st).2 ↔ x ∈ st.2 ∨ ∃ v ∈ vs, v.hasEta = true ∧ x ∈ v.pars) ∧
+      (x ∈ (vs.foldl catStep st).1 ↔
+        (x ∈ st.1 ∨ ∃ v ∈ vs, v.hasEta = false ∧ x ∈ v.pars ∧ x ∉ st.2) ∧
+          ¬ (∃ v ∈ vs, v.hasEta = true ∧ x ∈ v.pars)) := by
+  induction vs with
+  | nil => intro st x; simp
+  | cons v vs ih =>
+    intro st x
+    simp only [List.foldl_cons]
+    obtain ⟨ih2, ih1⟩ := ih (catStep st v) x
+    rw [ih2, ih1]
+    unfold catStep
+    cases hv : v.hasEta with
+    | true =>
+      simp only [if_true, mem_unionS, List.mem_filter, Bool.not_eq_true', List.contains_eq_mem,
+        decide_eq_false_iff_not, List.mem_cons, exists_eq_or_imp, hv]
+      grind
+    | false =>
+      simp only [Bool.false_eq_true, if_false, mem_unionS, List.mem_filter, Bool.not_eq_true', List.contains_eq_mem,
+        decide_eq_false_iff_not, List.mem_cons, exists_eq_or_imp, hv]
+      grind
+
+theorem categorize_nodup_fold (vs : List Vis) :
+    ∀ (st : List String × List String), st.1.Nodup → st.2.Nodup →
+      (vs.foldl catStep st).1.Nodup ∧ (vs.foldl catStep st).2.Nodup := by
+  induction vs with
+  | nil => intro st h1 h2; exact ⟨h1, h2⟩
+  | cons v vs ih =>
+    intro st h1 h2
+    simp only [List.foldl_cons]
+    apply ih
+    · unfold catStep
+      split
+      · exact List.Pairwise.filter _ h1
+      · exact nodup_unionS _ _ h1
+    · unfold catStep
+      split
+      · exact nodup_unionS _ _ h2
+      · exact h2
+
+/-! ### idxmin -/
+
+theorem idxminAux_one (rs : List Row) (j : Nat) (h : ∀ r ∈ rs, ∀ k, r.rank = some k → 1 ≤ k) :
+    idxminAux rs (some (j, 1)) = some (j, 1) := by
+  induction rs with
+  | nil => rfl
+  | cons r rs ih =>
+    unfold idxminAux
+    cases hr : r.rank with
+    | none => simp only []; exact ih (fun r' hr' => h r' (List.mem_cons_of_mem _ hr'))
+    | some k =>
+      have := h r (List.mem_cons_self ..) k hr
+      have hnot : ¬ k < 1 := by omega
+      simp only [hnot, if_false]
+      exact ih (fun r' hr' => h r' (List.mem_cons_of_mem _ hr'))
+
+theorem idxminAux_none (rs : List Row) (h : ∀ r ∈ rs, r.rank = none) : idxminAux rs none = none := by
+  induction rs with
+  | nil => rfl
+  | cons r rs ih =>
+    unfold idxminAux
+    rw [h r (List.mem_cons_self ..)]
+    exact ih (fun r' hr' => h r' (List.mem_cons_of_mem _ hr'))
 
 end Pharmpy.C19
